@@ -38,6 +38,10 @@ def run(cx, tier='quick'):
     c13_param.check(cx, facts, rep)
     c13_sel.check(cx, facts, rep)
     check_field_scan_coverage(cx, facts, rep)
+    # the type-level parameter list of a trait is refused where its handler parses it: every educed trait's handler must be called with
+    # the metas stored under that trait (DISP, shared with C15), else `#[educe(PartialOrd(ignore), Ord)]` is accepted without a look
+    from .c15 import check_disp
+    check_disp(cx, facts, rep)
     # per-element state: the flags behind "given twice" / "nothing to show" refusals live as long as the element they describe
     from .scope import check_scopes
     check_scopes(cx, rep, None)
@@ -139,6 +143,24 @@ def check_scanners(cx, facts, rep):
             rep.ok('SCAN', where + '|educe-list-only')
         else:
             rep.bad('SCAN', where, 'meta-loop-guards', 'metas are examined only under unexpected conditions: %s' % [atom_s(a) for a in conds], f.file, sc.meta_loop[0].line)
+        # S1b: an `educe` attribute that is not a list (`#[educe]`, `#[educe = ".."]`) carries nothing the scanner reads: it must be
+        # refused (as lib.rs does on the type itself), not skipped
+        ok_nl = False
+        for ev, c in sc.exits:
+            at = [a for a in facts.atoms(ev.ctx, sc.fw) if a[0] != 'loop']
+            if not any(x['k'] == 'for' and x.get('id') == sc.attr_loop[0].entry['id'] for x in ev.ctx) or any(x.get('id') == sc.meta_loop[0].entry['id'] for x in ev.ctx):
+                continue
+            pos_educe = any(a[0] == 'cond' and 'is_ident("educe")' in a[1] and ((a[2] and not a[1].replace(' ', '').strip('(').startswith('!'))
+                                                                                  or (a[2] is False and a[1].replace(' ', '').strip('(').startswith('!'))) for a in at)
+            neg_list = any((a[0] == 'is' and a[2] == 'Meta::List' and a[3] is False)
+                           or (a[0] == 'arm-else' and len(a[2]) == 1 and a[2][0].startswith('Meta::List(')) for a in at)
+            if pos_educe and neg_list and len(at) == 2:
+                ok_nl = True
+        if ok_nl:
+            rep.ok('SCAN', where + '|non-list-educe-refused')
+        else:
+            rep.bad('SCAN', where, 'non-list-accepted', 'an `educe` attribute that is not a list (`#[educe]`, `#[educe = "Trait(..)"]`) on a field or variant is skipped without a diagnostic: '
+                    'whatever the user wrote there is silently dropped (the same spelling on the type is refused by lib.rs)', f.file, sc.attr_loop[0].line)
         # S2: rejections
         mid = sc.meta_loop[0].entry['id']
         tm = sc.tm
@@ -207,6 +229,15 @@ def check_scanners(cx, facts, rep):
                     continue
                 at = facts.atoms(a.ctx, sc.fw)
                 guarded = any(x[0] == 'some' and x[1] == ('var', dd.id, dd.name) and x[2] is False for x in at)
+                v_ = a.value
+                if not guarded and isinstance(v_, dict) and v_.get('k') == 'Match' and es(v_['expr']).replace(' ', '').lstrip('&') == dd.name and len(v_['arms']) == 2:
+                    # `output = match output { Some(_) => return Err(..), None => Some(..) }`: the same check as one expression
+                    def _div(b_):
+                        while b_.get('k') == 'Block' and len((b_.get('block') or b_).get('stmts') or []) == 1 and (b_.get('block') or b_)['stmts'][0].get('k') == 'Expr':
+                            b_ = (b_.get('block') or b_)['stmts'][0]['expr']
+                        return b_.get('k') == 'Return' and isinstance(b_.get('expr'), dict) and es(b_['expr']).startswith('Err')
+                    pats_ = dict((pat_s(x_['pat']).split('(')[0], x_) for x_ in v_['arms'])
+                    guarded = set(pats_) == {'Some', 'None'} and _div(pats_['Some']['body']) and not pats_['Some'].get('guard') and not pats_['None'].get('guard')
                 if not guarded:
                     rep.bad('SCAN', where, 'overwrite=%s' % dd.name,
                             'the scan result `%s` is assigned inside the attribute loop without the "already set ⇒ Err" check: with several #[educe(..)] attributes on one item only the last one counts' % dd.name,
@@ -224,6 +255,17 @@ def check_scanners(cx, facts, rep):
         if okover:
             rep.ok('SCAN', where + '|result accumulates over all attributes')
         # S3: branches
+        slots = {}
+        for b in sc.branches:
+            if b.trait == X or (X, b.trait) in SYNONYMS:
+                pid_ = b.ev.pos['id']
+                for ev_ in sc.fw.events:
+                    if ev_.kind == 'assign' and any(c_.get('id') == pid_ and c_['k'] == 'if' and c_.get('pol') and not c_.get('prior') for c_ in ev_.ctx) \
+                            and 'build_from_' in es(ev_.value):
+                        slots.setdefault(es(ev_.target).replace(' ', ''), []).append(b.trait)
+        if len(slots) > 1:
+            rep.bad('SCAN', where, 'split-result', 'the metas of %s are parsed into different variables %s: each has its own "given twice" check, so one spelling of each is accepted together and one of them is dropped' % (
+                ' / '.join(sorted(set(t_ for v_ in slots.values() for t_ in v_))), sorted(slots)), f.file, f.line)
         own = [b for b in sc.branches if b.trait == X]
         if not own:
             rep.bad('SCAN', where, 'own-trait-branch', 'no branch handles this trait\'s own metas (`t == Trait::%s`)' % X, f.file, f.line)
@@ -240,6 +282,13 @@ def check_scanners(cx, facts, rep):
                     if not any(p == ('feat', b.trait) for p in b.cfg):
                         rep.bad('SCAN', where, inst + '-cfg', 'synonym branch for Trait::%s is not gated on feature "%s"' % (b.trait, b.trait), f.file, b.ev.line)
                         continue
+                # the branch condition is the trait test alone (a synonym adds `traits.contains(&Trait::Z)`): any further conjunct lets
+                # some metas of this trait pass without being parsed — and the parser is where misplaced parameters are refused
+                extra_c = [o for o in b.extra_conds if not (b.trait != X and o.replace(' ', '') == 'traits.contains(&Trait::%s)' % b.trait)]
+                if extra_c:
+                    rep.bad('SCAN', where, inst + '-condition', 'metas of Trait::%s are only parsed under the further condition `%s`: where it does not hold they are accepted without being looked at' % (b.trait, extra_c[0][:60]),
+                            f.file, b.ev.line)
+                    continue
                 builds = [a for a in b.actions if a[0] in ('build', 'push')]
                 if not builds:
                     rep.bad('SCAN', where, inst, 'the branch for Trait::%s neither parses nor collects the meta' % b.trait, f.file, b.ev.line)
